@@ -118,6 +118,8 @@ class Harness:
             self.modpath = INJECT[self.file][2]
         else:
             self.modpath = "verif::" + self.file[:-3]
+        if d.get("submod"):
+            self.modpath += "::" + d["submod"]
 
     @property
     def full(self):
